@@ -604,6 +604,20 @@ TEXT_CLASSES: List[Tuple[str, str]] = [
     ("braces", "{ } {0} ${x} {@code x} %s %d %%"),
     ("markup", "<b> & &amp; </summary> <see cref=\"x\"/>"),
     ("at-sign", "@param x @return @throws"),
+    # ---- RST markup which the description renderers of the targets translate one by one
+    ("rst-literal-backtick", "``a`b``"),
+    ("rst-literal-comment-end", "``*/ --> ]]>``"),
+    ("rst-literal-markup", "``<b>&\\``"),
+    ("rst-literal-nul-surrogate", "``\x00`` and ``\ud83d``"),
+    ("rst-emphasis", "*emphasis* and *more emphasis*"),
+    ("rst-references", ":class:`Thing` and :attr:`Thing.val` and :class:`Kind`"),
+]
+
+#: only at the value sites (docutils limits the length of a line of a description); Java limits a string constant to
+#: 65 535 bytes, C++ compilers limit the length of a literal
+TEXT_VALUE_ONLY_CLASSES: List[Tuple[str, str]] = [
+    ("huge-value", "v" * 70000),
+    ("huge-astral-value", "\U0001F600" * 20000),
 ]
 
 #: sites of the descriptions (a docstring / a ``description=`` argument / the message of an invariant)
@@ -657,6 +671,7 @@ TEXT_QUICK_SOLO: Dict[str, Tuple[str, ...]] = {
     "latin1": TEXT_VALUE_SITES + ("invariant",),
     "astral": TEXT_VALUE_SITES + ("invariant",),
     "long-word": TEXT_VALUE_SITES + ("invariant",),
+    "rst-literal-backtick": TEXT_DESC_SITES,
 }
 
 
@@ -670,13 +685,21 @@ def text_models(full: bool) -> Iterator[Tuple[str, str]]:
         # the XML namespace and the version also go into the SNIPPETS which the harness has to write as UTF-8 files
         try:
             chars.encode("utf-8")
-            return TEXT_VALUE_SITES
         except UnicodeEncodeError:
             return tuple(s for s in TEXT_VALUE_SITES if s not in ("xml-namespace", "version"))
+        if '"' in chars or "'" in chars:
+            # the front end refuses quotes in the XML namespace
+            return tuple(s for s in TEXT_VALUE_SITES if s != "xml-namespace")
+        return TEXT_VALUE_SITES
 
     for cls, chars in TEXT_CLASSES:
         yield f"text-{cls}-descriptions", text_model({s: chars for s in TEXT_DESC_SITES})
         yield f"text-{cls}-values", text_model({s: chars for s in value_sites(chars)})
+    for cls, chars in TEXT_VALUE_ONLY_CLASSES:
+        yield f"text-{cls}-values", text_model({s: chars for s in value_sites(chars)})
+        if full:
+            for s in value_sites(chars):
+                yield f"text-{cls}-at-{s}", text_model({s: chars})
     for cls, chars in TEXT_CLASSES:
         for s in TEXT_DESC_SITES + value_sites(chars):
             if full or s in TEXT_QUICK_SOLO.get(cls, ()):
